@@ -321,6 +321,11 @@ pub fn encode_rle16(img: &[u16], w: usize, h: usize, ch: &mut dyn Chooser, max_l
                     n += 1;
                 }
                 cands.push((Kind::Bg, n));
+            } else if p == w && n_bg >= 1 {
+                // the seam: a background run that ended exactly at the end of the first scan line is followed by a
+                // background run WITHOUT the foreground pixel (rdesktop: `!(x == width && prevline == NULL)`; FreeRDP resets
+                // its insert flag when the first line is complete)
+                cands.push((Kind::Bg, n_bg));
             }
         } else if n_bg >= 1 {
             cands.push((Kind::Bg, n_bg));
@@ -550,7 +555,7 @@ pub fn decode_rle16(data: &[u8], w: usize, h: usize) -> Result<Vec<u16>, String>
         match kind {
             Kind::Bg => {
                 let mut n = len;
-                if last_bg {
+                if last_bg && p != w {
                     s[p] = bg(&s, p) ^ fg;
                     p += 1;
                     n -= 1;
